@@ -41,6 +41,12 @@ Oracle (clauses of the statement; keys in parentheses):
     connection, and a legitimate call issued after the hostile traffic still completes (C19/hostile/...).
   * fire-and-forget events run exactly once per connection they were sent on (C19/exactly-once/no-result-event-...), and the answers the
     peer sends for them never reach an awaited call: every awaited call obtains exactly its own handler's result;
+  * re-sending: the event OBJECT of a call that has completed its round trip (handler ran, waiting handler resumed) is sent once more - a retry, a
+    kept periodic event, the same event for another peer: over the same connection or over another connection of the sending process, while
+    other calls are in flight (main phase) or after everything has completed (second phase).  It is a send like any other: executed once, and
+    the waiting handler obtains the result of THIS execution, which differs from the first one's (C19/result/resent-event-stale-result when
+    it is resumed before the peer ran the handler or obtains what the earlier send obtained; .../resent-event-results-accumulated when it
+    obtains the list of both results);
   * after a result packet of the raw peer the local event that waited for it has the dispatcher attributes it had before it was sent
     (C19/hostile/waiting-event-attribute-overwritten/...), its value is a Value, the waiting handler obtained the plain value the packet
     carried or its error flag (C19/hostile/result-value-forged), and an event forwarded while being handled completes locally.
@@ -78,8 +84,10 @@ LEVEL_NOTE = ('trusted: SimSocket/AF_UNIX delivery, the per-process swap of the 
 RULE = ('each run = topology (one client / one client process with two peers / two client processes, optional raw peer) + firewalls + '
         '1..N calls with generated JSON payloads + schedule + read cuts + hostile packets, all from one tape; non-trivial = at least two '
         'legitimate calls were issued of which one was in flight together with another or larger than the read buffer, or a read was cut, or a '
-        'hostile packet was sent, or a fire-and-forget event was sent; distinct = digest of the (call, dispatch, completion, hostile action) log')
-STATE_MEASURE = '(topology, calls in flight when a call was issued, packet size class, cut class of the read that carried it, hostile packet class)'
+        'hostile packet was sent, or a fire-and-forget event was sent; a completed event object may be sent again (same / other connection, '
+        'different handler result); distinct = digest of the (call, dispatch, completion, hostile action) log')
+STATE_MEASURE = ('(topology, calls in flight when a call was issued, packet size class, cut class of the read that carried it, hostile packet class; for a '
+                 're-sent event object: handler behaviour of the first and of this execution, same or other connection)')
 REAL = ['circuits.node.Node / Server / Client / Protocol / utils (dump/load event and value)', 'circuits.net.sockets.TCPServer / TCPClient',
         'circuits.core.pollers.Select / Poll / EPoll (real select/poll/epoll, timeout 0)', 'circuits.core.manager.Manager (tick, call/wait, tasks)',
         'kernel AF_UNIX stream sockets']
@@ -98,13 +106,18 @@ ASSUMPTIONS = ['the `success` flag of a received event is forced to True by Prot
                'free (non-dispatcher) meta keys of a result packet may or may not be copied to the waiting event',
                'the root component of a process is an empty Component with the drawn channel; every workload event is fired with explicit channels, so no idiom '
                'had to be excluded under a non-\'*\' root (all of them pass on the healthy tree)',
-               'server -> client calls always carry explicit channels (an empty channel tuple is replaced by the receiver, which the statement does not cover)']
+               'server -> client calls always carry explicit channels (an empty channel tuple is replaced by the receiver, which the statement does not cover)',
+               'an event object is sent again only after its previous round trip has completed (the same object in flight twice at the same time is not '
+               'generated), and never to or from the raw peer; the application renews the token in args[0] of the kept object in place (that is how the '
+               'two executions are told apart at the peer), everything else on the object is as the first round trip left it; the first round trip is judged at '
+               'the moment of the re-send']
 PROBES = ['call:c2s', 'call:s2c', 'call:concurrent', 'call:big', 'completed', 'fault:short_read', 'cut:in-delimiter', 'cut:tiny', 'cut:uniform',
           'cut:in-multibyte', 'packet:split', 'fw:send-blocked', 'fw:recv-blocked', 'topo:B1', 'topo:B2', 'topo:BC', 'hostile:valid', 'hostile:mutated',
           'hostile:bytes', 'hostile:meta', 'hostile:value', 'hostile:oversized', 'fault:peer_abort', 'hostile:probe-call', 'behav:raise', 'behav:gen', 'behav:ret-fire',
           'mode:fire', 'mode:call', 'mode:fwd', 'junk-dispatch', 'note:send', 'note:send_to', 'note:send_all', 'no-result-event-in-flight-with-call',
           'root:*', 'root:app', 'root:svc', 'non-star-root-with-raising-handler', 'behav:gen-raise',
-          'callee:plain', 'callee:meta', 'callee:error', 'callee:wrong-id', 'callee:duplicate', 'callee:pieces', 'hostile-result-meta', 'call:to-raw-peer']
+          'callee:plain', 'callee:meta', 'callee:error', 'callee:wrong-id', 'callee:duplicate', 'callee:pieces', 'hostile-result-meta', 'call:to-raw-peer',
+          'resend:c2s', 'resend:s2c', 'resend:same-connection', 'resend:other-connection', 'resend:fwd', 'resend:concurrent', 'resend:after-raise', 'resend:completed']
 TIERS = {
     'quick': dict(runs=24000, wall=30, chunk=50, cfg=dict(max_calls=6, max_ops=26, big=[3000, 4096, 5000, 9000], max_hostile=5, junk=[5000, 20000])),
     'thorough': dict(runs=400000, wall=600, chunk=200, cfg=dict(max_calls=12, max_ops=60, big=[3000, 4090, 4096, 5000, 9000, 20000, 70000],
@@ -120,6 +133,7 @@ K_BCAST = 'C19/mixup/result-broadcast-to-all-connections'
 K_SHARED = 'C19/mixup/shared-call-table'
 K_CAUSE = 'C19/hostile/dispatcher-attribute-overwritten/cause-effects'
 K_CHAN = 'C19/loop-survives/tick-raised/_dispatcher'
+K_RESENT = 'C19/result/resent-event-stale-result'
 
 SHARED = [(Protocol, '_Protocol__events'), (Server, '_Server__protocols'), (Node, '_Node__peers')]
 ADDR = ('10.0.0.1', 9000)
@@ -321,6 +335,7 @@ class Sim:
         self.notes = []             # fire-and-forget events (Server.send(no_result=True) / send_to / send_all)
         self.rawproc = Proc('R')    # stands for the raw peer where it is the callee of a server -> client call
         self.callee_on = False
+        self.seq = 0                # order of handler executions and completions (which came first)
 
     # ------------------------------------------------------------------ reporting
     def fail(self, key, detail):
@@ -579,12 +594,28 @@ class Sim:
         d = vars(ev)
         return {k: (J(d[k]) if k in d else ABSENT) for k in (WATCH_FWD if fwd else WATCH)}
 
-    def issue(self, probe=False, conn=None, s2c=None):
+    def resendable(self):
+        """calls whose event object has completed a round trip (handler ran, waiting handler resumed) and may be sent once more"""
+        return [c for c in self.calls if c.done is not None and c.runs and not (c.void or c.blocked or c.probe or c.resent or c.conn.dead) and c.src.alive
+                and c.dst is not self.rawproc and (c.mode != 'fwd' or c.local_success == 1)]
+
+    def issue(self, probe=False, conn=None, s2c=None, again=None):
+        """`again` = a completed call whose EVENT OBJECT is sent once more (a retry / a kept event / the same event for another peer): a send
+        like any other - "executed exactly once on the peer and its result or error flag comes back to the sender's waiting handler"."""
         ch, ctx = self.ch, self.ctx
         live = [cn for cn in self.conns if cn.raw is None and not cn.dead]
         if not live:
             return None
         A = self.procs['A']
+        if again is not None:
+            # the first round trip is judged now, while the object still looks as that round trip left it
+            again.judged = True
+            self.judge_call(again)
+            if self.failed:
+                return None
+            s2c = again.dirn == 's2c'
+            others = [cn for cn in live if cn is not again.conn and (s2c or cn.cproc is again.src)]     # further connections of the sending process
+            conn = ch.choice(others, 'resend-conn') if (others and ch.chance(1, 2, 'resend-other-conn')) else again.conn
         if conn is None:
             conn = live[0] if probe else ch.choice(live, 'call-conn')
         if s2c is None:
@@ -603,12 +634,20 @@ class Sim:
         c.conn, c.src, c.dst, c.dirn = conn, src, dst, 's2c' if s2c else 'c2s'
         c.feats = set()
         c.probe = probe
-        c.mode = 'call' if probe else ch.choice(['call', 'fire', 'fwd'] if s2c else ['call', 'fire'], 'mode')
-        c.name = 'alpha' if probe else ('job' if c.mode == 'fwd' else ch.choice(NAMES, 'name'))
+        c.again, c.resent = again, False
+        if again is not None:
+            c.mode = 'fwd' if again.mode == 'fwd' else ch.choice(['call', 'fire'], 'mode')
+            c.feats = {f for f in again.feats if not f.endswith(':result')}
+        else:
+            c.mode = 'call' if probe else ch.choice(['call', 'fire', 'fwd'] if s2c else ['call', 'fire'], 'mode')
+        c.name = again.name if again else 'alpha' if probe else ('job' if c.mode == 'fwd' else ch.choice(NAMES, 'name'))
         allow_big = not probe and self.big_on
-        c.args = [c.tok] + ([] if probe else [self.gen_value(allow_big, c.feats, 'call') for _ in range(ch.weighted([3, 3, 1], 'nargs'))])
-        c.kwargs = {}
-        if not probe:
+        if again is not None:
+            c.args, c.kwargs = [c.tok] + again.args[1:], again.kwargs
+        else:
+            c.args = [c.tok] + ([] if probe else [self.gen_value(allow_big, c.feats, 'call') for _ in range(ch.weighted([3, 3, 1], 'nargs'))])
+            c.kwargs = {}
+        if not probe and again is None:
             for _ in range(ch.weighted([4, 2, 1], 'nkw')):
                 key = 'value' if (self.allow_valuekey and ch.chance(1, 6, 'kw-value?')) else ch.choice(KW_KEYS, 'kw-key')
                 if key == 'value':
@@ -621,21 +660,43 @@ class Sim:
             c.result = 'pong' if probe else self.gen_value(allow_big, c.feats, 'result')
             if c.result is None:
                 c.behav = 'none'
+        if again is not None and c.behav not in RAISES and again.behav not in RAISES and J(c.result) == J(again.result):
+            # the two executions of a re-sent event give different results, so that a stale one is recognisable
+            c.behav, c.result = ('ret' if c.behav == 'none' else c.behav), ['again', c.tok]
         c.plan = None
         if to_raw:
             c.behav, c.result, c.plan = 'raw', None, self.callee_plan(c)
-        c.failure = (not probe) and ch.chance(1, 4, 'failure-flag')
-        c.notify = (not probe) and ch.chance(1, 5, 'notify-flag')
-        c.success = c.mode == 'fwd' or ((not probe) and ch.chance(1, 4, 'success-flag'))
+        if again is not None:
+            c.failure, c.notify, c.success = again.failure, again.notify, again.success
+        else:
+            c.failure = (not probe) and ch.chance(1, 4, 'failure-flag')
+            c.notify = (not probe) and ch.chance(1, 5, 'notify-flag')
+            c.success = c.mode == 'fwd' or ((not probe) and ch.chance(1, 4, 'success-flag'))
         c.size = len(J(c.args)) + len(J(c.kwargs)) + 190
         c.rsize = len(J(c.result)) + 60
         if self.align and max(c.size, c.rsize) > 3600:
             return None
-        c.event = mk_event(c.name, c.args, c.kwargs)
-        c.event.failure, c.event.notify, c.event.success = c.failure, c.notify, c.success
-        if not probe and c.mode != 'fwd' and ch.chance(1, 6, 'custom-meta'):
+        if again is not None:
+            # the very same object, left as its first round trip left it; only the token in its first argument is renewed (in place), so
+            # that the two executions can be told apart at the peer
+            again.resent = True
+            c.event = again.event
+            c.event.args[0] = c.tok
+            ctx.stat('resend:' + c.dirn)
+            ctx.stat('resend:same-connection' if conn is again.conn else 'resend:other-connection')
+            for probe_name, hit in (('fwd', c.mode == 'fwd'), ('concurrent', self.in_flight(proc=src)), ('after-raise', again.behav in RAISES)):
+                if hit:
+                    ctx.stat('resend:' + probe_name)
+        else:
+            c.event = mk_event(c.name, c.args, c.kwargs)
+            c.event.failure, c.event.notify, c.event.success = c.failure, c.notify, c.success
+        if not probe and again is None and c.mode != 'fwd' and ch.chance(1, 6, 'custom-meta'):
             c.event.trace_meta = 'm%d' % c.cid            # an application attribute: travels as meta
-        if s2c:
+        if s2c and again is not None:
+            c.chans = again.chans
+            c.fire_chans = ('app',)
+            c.outer = Event.create('push', c.cid)
+        elif s2c:
             # ('app', 'void'): nobody listens on the second channel (a handler on both would legitimately run twice)
             c.chans = ('app', 'void') if (c.mode != 'fwd' and ch.chance(1, 5, 'two-channels')) else ('app',)
             c.event.channels = c.chans
@@ -653,7 +714,7 @@ class Sim:
             c.blocked = 'send'
         elif c.name in blocked.get((dst.tag, 'recv'), ()):
             c.blocked = 'recv'
-        c.runs, c.done, c.fv, c.void, c.local_success, c.answered = [], None, None, False, 0, None
+        c.runs, c.done, c.fv, c.void, c.local_success, c.answered, c.judged, c.ran_at, c.done_at = [], None, None, False, 0, None, False, None, None
         c.concurrent = len(self.in_flight(conn=conn))
         c.issued_round = self.round
         self.calls.append(c)
@@ -675,10 +736,14 @@ class Sim:
         if s2c and not c.blocked and any(conn in n.targets and not n.blocked and not self.note_satisfied(n) for n in self.notes):
             # a fire-and-forget event and an awaited call are under way on the same connection
             ctx.stat('no-result-event-in-flight-with-call')
-        ctx.state((self.topo, min(c.concurrent, 3), min(max(c.size, c.rsize) // 2048, 4), c.dirn, c.blocked or '-', c.mode, to_raw))
-        ctx.log('call', c.cid, c.dirn, conn.k, c.name, c.size, c.rsize, c.behav, c.mode, c.failure, c.notify, c.blocked or '-', short(c.args[1:]), short(c.kwargs))
+        ctx.state((self.topo, min(c.concurrent, 3), min(max(c.size, c.rsize) // 2048, 4), c.dirn, c.blocked or '-', c.mode, to_raw)
+                  + ((again.behav, c.behav, conn is again.conn) if again else ()))
+        ctx.log('call', c.cid, c.dirn, conn.k, c.name, c.size, c.rsize, c.behav, c.mode, c.failure, c.notify, c.blocked or '-', short(c.args[1:]), short(c.kwargs),
+                again.cid if again else -1)
         ctx.trace('%s %s: process %s -> %s over connection %d (%s): %s(%s, %s) channels=%r flags(s/f/n)=%d%d%d %s%s' % (
-            'PROBE call' if probe else 'call', c.tok, src.tag, 'raw peer' if to_raw else dst.tag, conn.k, c.mode, c.name, short(c.args), short(c.kwargs), c.chans,
+            'PROBE call' if probe else 'call' if again is None else 'RE-SEND of the event object of %s (sent over connection %d, obtained %s) as call' % (
+                again.tok, again.conn.k, again.done[0][:40]),
+            c.tok, src.tag, 'raw peer' if to_raw else dst.tag, conn.k, c.mode, c.name, short(c.args), short(c.kwargs), c.chans,
             c.success, c.failure, c.notify,
             'raw peer will answer: %s' % self.plan_text(c.plan) if to_raw else
             'handler will %s%s' % (c.behav, '' if c.behav in ('none',) + RAISES else ' ' + short(c.result)),
@@ -858,6 +923,9 @@ class Sim:
             ctx.trace('    [%s] handler ran for a packet that is not a tracked call: %s' % (p.tag, event.name))
             return 'junk'
         c.runs.append(p.tag)
+        self.seq += 1
+        if len(c.runs) == 1:
+            c.ran_at = self.seq
         ctx.log('run', p.tag, tok, len(c.runs))
         ctx.trace('    [%s] handler %s ran for %s (run #%d)' % (p.tag, event.name, tok, len(c.runs)))
         if c.blocked:
@@ -907,6 +975,10 @@ class Sim:
         ev = c.event
         err = bool(getattr(r, 'errors', False)) or bool(getattr(ev, 'errors', False)) or bool(getattr(getattr(ev, 'value', None), 'errors', False))
         c.done = (J(val), err, self.round)
+        self.seq += 1
+        c.done_at = self.seq
+        if c.again is not None:
+            self.ctx.stat('resend:completed')
         self.ctx.stat('completed')
         self.ctx.log('done', c.cid, short(val, 60), err)
         self.ctx.trace('    [%s] sender of %s obtained %s errors=%s' % (c.src.tag, c.tok, short(val, 80), err))
@@ -1194,6 +1266,19 @@ class Sim:
             if len(same) > 1:
                 return 'C19/result/call-id-reused-on-connection', 'ids must tell the calls of a connection apart, but %d call packets on connection %d carry id %s (%s)' % (
                     len(same), c.conn.k, wire_id, ', '.join(str((o.get('args') or ['?'])[0]) for o in same[:3]))
+        prev = getattr(c, 'again', None)
+        if prev is not None and c.done is not None and len(c.runs) == 1:
+            # the event object had completed a round trip before.  Evidence that the earlier answer was taken for this call's: the waiting
+            # handler was resumed before the peer's handler had run, or with exactly what the earlier send of the object had obtained
+            early, stale = c.done_at < c.ran_at, c.done[:2] == prev.done[:2]
+            if early or stale:
+                return K_RESENT, ('the event object had been sent before (%s over connection %d, which obtained %s); this second send was transmitted and executed, '
+                                  'but the sender %s' % (prev.tok, prev.conn.k, prev.done[0][:60],
+                                                         'was resumed before the peer had even run the handler' if early else 'obtained the result of the earlier send'))
+            first = json.loads(prev.done[0])
+            if c.behav not in RAISES and c.done[0] in (J([first, c.result]), J((first if isinstance(first, list) else [first]) + [c.result])):
+                return 'C19/result/resent-event-results-accumulated', (
+                    'the event object had been sent before (%s, which obtained %s): the sender obtained the list of both results' % (prev.tok, prev.done[0][:60]))
         # (each guess needs its evidence on the wire, so that another defect is not filed under a known key)
         if 'delim:call' in feats and loc is not None and tx[loc[1] - len(DELIMITER):loc[1]] == DELIMITER and packets_of(tx[loc[0]:loc[1]])[0][2] is None:
             return K_DELIM, 'its payload contains the packet delimiter ~~~, which cuts the call packet in two'
@@ -1495,7 +1580,8 @@ class Sim:
             op = ch.weighted([5, 5 if ncalls > 0 else 0, 2, 4 if (live_raw and n_hostile > 0) else 0,
                               1 if (live_raw and self.hostile_sent and not hostile_first) else 0,
                               1 if (self.topo == 'BC' and self.procs['C'].alive and self.calls) else 0,
-                              3 if nnotes > 0 else 0, 3 if (nnotes > 0 and ncalls > 0) else 0], 'op')
+                              3 if nnotes > 0 else 0, 3 if (nnotes > 0 and ncalls > 0) else 0,
+                              3 if (ncalls > 0 and K_RESENT not in avoid and self.resendable()) else 0], 'op')
             if op == 0:
                 p = ch.choice([q for q in self.procs.values() if q.alive], 'tick-who')
                 n = 1 + ch.draw(3, 'tick-n')
@@ -1518,6 +1604,10 @@ class Sim:
             elif op == 6:
                 if self.issue_note() is not None:
                     nnotes -= 1
+            elif op == 8:
+                # the event object of a completed call is sent once more (same connection, or another one of the sending process)
+                if self.issue(again=ch.choice(self.resendable(), 'resend-which')) is not None:
+                    ncalls -= 1
             else:
                 # a fire-and-forget event directly followed by an awaited call on the same connection, both under way together
                 live = [cn for cn in self.conns if cn.raw is None and not cn.dead]
@@ -1537,6 +1627,23 @@ class Sim:
         self.drain('main')
         if self.failed:
             return
+        # ---- second phase: event objects that have completed their round trip are sent once more (retry / kept event / another peer)
+        nres = ch.draw(3, 'n-resend') if K_RESENT not in avoid else 0
+        if nres and self.resendable():
+            ctx.trace('-- second phase: completed event objects are sent again --')
+            self.cuts_on, self.quiescing = fault_cuts, False
+            for _ in range(nres):
+                again = self.resendable()
+                if self.failed or not again:
+                    break
+                self.issue(again=ch.choice(again, 'resend-which'))
+                for _ in range(ch.draw(4, 'resend-rounds')):
+                    self.fair_round()
+            self.cuts_on, self.quiescing = False, True
+            if not self.failed:
+                self.drain('resend')
+            if self.failed:
+                return
         if self.hostile_sent and B.alive:
             # "a subsequent legitimate call still completes"
             self.issue(probe=True)
@@ -1624,7 +1731,7 @@ class Sim:
         for c in self.calls:
             if self.failed:
                 return None
-            if c.void or c.conn.dead:
+            if c.void or c.conn.dead or c.judged:        # (judged: when its event object was sent again)
                 continue
             self.judge_call(c)
         for n in self.notes:
